@@ -208,7 +208,10 @@ Inductive rev :=
 | BatchClose (ws : list (N * list N)) (status : N) (cerr : bool)
                                              (* the same, the first held in flight; then CloseWithStatus *)
 | Deliver (bs : list N)                      (* the current transport's Read returns bs to the read loop *)
-| ReadFail (normal : bool)                   (* the current transport's Read returns an error
+| ReadFail (normal : bool) (cls : N)         (* [cls]: the close status the error carries - 0 none (abrupt),
+                                                1 normal (iff [normal]), 2 going away, 3 abnormal, 4 internal error,
+                                                5 plain ErrConnectionClosed; only [normal] matters to the code.
+                                                The current transport's Read returns an error
                                                 (normal: one that Is ErrConnectionNormalClose) *)
 | ReadStart (take : bool)                    (* Transport.Read is called; [take] resolves the select race after cancel *)
 | ReadJoin                                   (* what that Read call returned *)
@@ -267,7 +270,7 @@ Definition rstep (st : rstate) (e : rev) : rstate * rout :=
              (fst r, OPong (match snd r with WOk => true | _ => false end))
         else (push_read st (Some bs), OUnit)
       else (st, OUnit)
-  | ReadFail normal =>
+  | ReadFail normal _ =>
       if reading st then
         if normal then (kill_reader st, OReadFail false)
         else
@@ -444,7 +447,7 @@ Definition disc_step (d : disc) (eo : rev * rout) : option disc :=
       else Some (if d_live d then d_push d (Some bs) else d)
   | (Deliver bs, OPong ok) =>
       if is_ping bs && d_live d then Some (if ok then d else d_over d) else None
-  | (ReadFail normal, OReadFail alive) =>
+  | (ReadFail normal _, OReadFail alive) =>
       if d_live d then
         if normal then (if alive then None else Some (mkDi (d_cz d) (d_rx d) true (d_q d) (d_wake d)))
         else if alive then Some d
